@@ -4,7 +4,7 @@ CONSTANTS
  MaxTypeBits = 10
  MaxCards = 512
  MaxDkgPlayers = 256
- Fams = {"group"}
+ Fams = {"int", "lim", "key"}
  P <- PThorough
 INVARIANTS Theorems Emit
 CHECK_DEADLOCK FALSE
